@@ -18,7 +18,7 @@ RULE = (
     "distinct by spec hash."
 )
 
-PROFILE = {"measures": ["dx"], "ids": "simple", "bessel": True, "p_qelement": 0.1, "p_transform": 0.25, "p_derivative": 0.1}
+PROFILE = {"measures": ["dx"], "ids": "simple", "bessel": True, "p_qelement": 0.1, "p_transform": 0.25, "p_derivative": 0.1, "p_mesh2": 0.08}
 
 
 def shard(shard, nshards, n, tier, seed):
